@@ -11,7 +11,15 @@
 (*           visual_only: pixel (i, j) <-> parameter k,                    *)
 (*             order C: k = i cc + j      order F: k = j r + i   (0-based) *)
 (*           vector form of a function = its parameter vector.             *)
-(*   mapped  MappedGeometry(inner, x -> 2x + 1, f -> (f - 1)/2).           *)
+(*   maps    a configuration with a non-empty stack `maps` = <<m1, .., mj>> *)
+(*           is MappedGeometry(.. MappedGeometry(inner, m1, im1) .., mj,   *)
+(*           imj) around the inner geometry the other fields describe:     *)
+(*             par2fun = mj . .. . m1 . inner.par2fun                      *)
+(*             fun2par = inner.fun2par . im1 . .. . imj                    *)
+(*             fun2vec / vec2fun / shapes = the inner geometry's           *)
+(*           entry-wise maps: affine 2v+1 | cube v^3 (both exact in        *)
+(*           rationals; cube roots of exact cubes are exact) | exp (only   *)
+(*           the structure: a tagged value "exp of <pre-image>").          *)
 (*   kl      KLExpansion(grid of n nodes, decay 2, normalizer 12,          *)
 (*           num_modes m): abstractly, in the coordinates of the sine      *)
 (*           basis of the docstring: par2fun scales mode i by              *)
@@ -26,6 +34,14 @@
 (* Partition, Bijection, RoundTrip, Idempotent, Columnwise, Shapes are     *)
 (* checked and the exact index maps / partitions / rational projections    *)
 (* are emitted.                                                            *)
+(* mode "seq": ONE object, a behaviour of <= MaxSeq public calls: Use      *)
+(* (shape queries, par2fun, fun2par, a Samples conversion) and Set (a       *)
+(* public setter: grid of the Continuous* / KL / step geometries, also of   *)
+(* the geometry inside a MappedGeometry; variables of Discrete).  After     *)
+(* every action the object must answer like a freshly constructed geometry  *)
+(* with the current settings (SeqFresh): whatever was remembered at first   *)
+(* use (step partition, vector-form shape, a wrapper's function shape, KL   *)
+(* coefficients) is recomputed by the setter.                               *)
 (* mode "conv": the flag automaton of Samples (funvals / vector /          *)
 (* parameters) and CUQIarray (funvals / parameters) with explicit content: *)
 (* real actions, a trail of at most MaxOps operations, invariants          *)
@@ -39,7 +55,9 @@ CONSTANTS MaxN1,       \* ident: n in 1..MaxN1
           MaxStepN,    \* step: n in 2..MaxStepN
           NX0, NL,     \* step: number of grid offsets / lengths taken from X0Seq / LSeq
           MaxOps,      \* conv: length of the trail
+          MaxSeq,      \* seq: number of actions of a behaviour
           Dev,         \* "none" | "openfirst" | "batchmix" | "vectorsetspar" | "stalekl" | "ravelC"
+                       \* | "imapafter" | "stalestep" | "stalefunvec" | "stalewrap"
           Emit
 
 VARIABLES c,        \* configuration record (uniform shape, see Cfg)
@@ -49,11 +67,17 @@ VARIABLES c,        \* configuration record (uniform shape, see Cfg)
           par, vec, \* representation flags
           val,      \* content: sequence over the columns (samples) / one value wrapped in a 1-sequence (array)
           trail,    \* operations applied so far
-          indices   \* StepExpansion: the partition computed once at construction (sequence over steps of node sets)
-vars == <<c, mode, rep, origin, par, vec, val, trail, indices>>
+          indices,  \* StepExpansion: the partition computed at construction / by the grid setter (sequence over steps of node sets)
+          c0,       \* seq: the configuration the object was constructed with
+          cache     \* seq: what the object remembered at first use (see EmptyCache)
+vars == <<c, mode, rep, origin, par, vec, val, trail, indices, c0, cache>>
 
 Cfg(kind, cls, n, r, cc, m, n2, s, x0, len, proj) ==
-    [kind |-> kind, cls |-> cls, n |-> n, r |-> r, cc |-> cc, m |-> m, n2 |-> n2, s |-> s, x0 |-> x0, len |-> len, proj |-> proj]
+    [kind |-> kind, cls |-> cls, n |-> n, r |-> r, cc |-> cc, m |-> m, n2 |-> n2, s |-> s, x0 |-> x0, len |-> len, proj |-> proj,
+     maps |-> <<>>]
+WithMaps(k, ms) == [k EXCEPT !.maps = ms]
+Inner(k)        == [k EXCEPT !.maps = <<>>]
+IsMapped(k)     == k.maps # <<>>
 
 \* ---- configuration space -------------------------------------------------------------------
 X0Seq == << <<0, 1>>, <<1, 3>>, <<-1, 1>>, <<1, 10>>, <<2, 1>> >>
@@ -66,9 +90,17 @@ VisualOf(cls) == cls \in {"Visual_C", "Visual_F"}
 IdentConfigs  == {Cfg("ident", cls, n, 0, 0, 0, 0, 0, Zero, Zero, "") :
                     cls \in {"Continuous1D", "Default1D", "Discrete"}, n \in 1..MaxN1}
 ImageConfigs  == {Cfg("image", cls, 0, r, cc, 0, 0, 0, Zero, Zero, "") : cls \in ImageCls, r \in 1..MaxR, cc \in 1..MaxR}
-MappedConfigs == {Cfg("mapped", "Continuous1D", 3, 0, 0, 0, 0, 0, Zero, Zero, ""),
-                  Cfg("mapped", "Image2D_F", 0, 2, 3, 0, 0, 0, Zero, Zero, ""),
-                  Cfg("mapped", "Image2D_C", 0, 3, 2, 0, 0, 0, Zero, Zero, "")}
+\* mapped geometries: every kind of inner geometry x every stack of maps.  <<m1, m2>> is a MappedGeometry of a MappedGeometry
+MapStacks == {<<"affine">>, <<"cube">>, <<"exp">>, <<"affine", "cube">>, <<"cube", "affine">>}
+StepCfg(n, s, a, b) == Cfg("step", "StepExpansion", n, 0, 0, 0, 0, s, X0Seq[a], LSeq[b], "")
+KLCfg(n, m)         == Cfg("kl", "KLExpansion", n, 0, 0, m, 0, 0, Zero, Zero, "")
+MappedInner ==
+    {Cfg("ident", cls, 3, 0, 0, 0, 0, 0, Zero, Zero, "") : cls \in {"Continuous1D", "Discrete", "Default1D"}}
+    \cup {Cfg("image", cls, 0, 2, 3, 0, 0, 0, Zero, Zero, "") : cls \in {"Image2D_F", "Continuous2D", "Default2D"}}
+    \cup {Cfg("image", cls, 0, 3, 2, 0, 0, 0, Zero, Zero, "") : cls \in {"Image2D_C", "Visual_F"}}
+    \cup {KLCfg(n, m) : n \in 3..MaxKL, m \in {0, 1, 2}}                       \* all modes and truncated
+    \cup {StepCfg(5, 2, 1, 1), StepCfg(7, 3, 2, 2), StepCfg(4, 4, 3, 1)}
+MappedConfigs == {WithMaps(k, ms) : k \in MappedInner, ms \in MapStacks}
 \* m = 0 stands for num_modes = None
 KLConfigs     == {Cfg("kl", "KLExpansion", n, 0, 0, m, n2, 0, Zero, Zero, "") :
                     n \in 1..MaxKL, m \in 0..(MaxKL + 1), n2 \in 0..MaxKL}
@@ -79,26 +111,33 @@ ValidCfg(k) == /\ (k.kind = "step" => k.s <= k.n)              \* documented: at
 MapConfigs  == {k \in IdentConfigs \cup ImageConfigs \cup MappedConfigs \cup KLConfigs \cup StepConfigs : ValidCfg(k)}
 
 \* configurations on which the conversion automaton runs (small; step grids away from float coincidences)
+MappedConv ==
+    {k \in MappedConfigs : \/ k.maps = <<"affine">> /\ k.kind \in {"ident", "image"} /\ k.cls \notin {"Default1D", "Default2D"}
+                                \/ k.maps = <<"cube">> /\ (k.kind = "step" \/ (k.kind = "kl" /\ k.n = 4 /\ k.m \in {0, 2}))
+                                \/ k.maps = <<"cube">> /\ k.cls \in {"Image2D_F", "Image2D_C"}
+                                \/ k.maps = <<"exp">> /\ (k.cls \in {"Image2D_F", "Discrete"} \/ (k.kind = "kl" /\ k.n = 3 /\ k.m = 1))
+                                \/ k.maps = <<"affine", "cube">> /\ (k.cls = "Continuous2D" \/ (k.kind = "kl" /\ k.n = 3 /\ k.m = 0))
+                                \/ k.maps = <<"cube", "affine">> /\ (k.cls = "Image2D_C" \/ (k.kind = "step" /\ k.s = 2))}
 ConvConfigs ==
     {k \in IdentConfigs : k.n \in {1, 3}}
     \cup {k \in ImageConfigs : k.r <= 3 /\ k.cc <= 3 /\ (k.r + k.cc) \in {3, 4, 5}}
-    \cup MappedConfigs
+    \cup {(IF k.kind = "step" THEN [k EXCEPT !.proj = "mean"] ELSE k) : k \in MappedConv}
     \cup {k \in KLConfigs : k.n \in {3, 4} /\ k.m \in {0, 2} /\ k.n2 = 0}
     \cup {Cfg("step", "StepExpansion", n, 0, 0, 0, 0, s, Zero, One, p) : n \in {4, 5}, s \in {1, 2, 4}, p \in {"mean", "max"}}
 
 \* ---- shapes ---------------------------------------------------------------------------------
 EffN(k)   == IF k.kind = "kl" /\ k.n2 > 0 THEN k.n2 ELSE k.n               \* current grid size
 IMin(a, b) == IF a < b THEN a ELSE b
-Is2D(k)   == (k.kind = "image" /\ ~VisualOf(k.cls)) \/ (k.kind = "mapped" /\ k.cls # "Continuous1D")
+\* shapes and dimensions of a mapped geometry are those of the geometry it wraps (the maps act entry-wise)
+Is2D(k)   == k.kind = "image" /\ ~VisualOf(k.cls)
 ParDim(k) == CASE k.kind = "ident" -> k.n
                [] k.kind = "image" -> k.r * k.cc
-               [] k.kind = "mapped" -> IF k.cls = "Continuous1D" THEN k.n ELSE k.r * k.cc
                [] k.kind = "kl" -> IF k.m = 0 THEN EffN(k) ELSE IMin(k.m, EffN(k))
                [] k.kind = "step" -> k.s
 FunShape(k) == IF Is2D(k) THEN <<k.r, k.cc>>
                ELSE CASE k.kind \in {"ident", "step"} -> <<k.n>>
                       [] k.kind = "kl" -> <<EffN(k)>>
-                      [] OTHER -> <<ParDim(k)>>                        \* visual-only image, mapped 1-D
+                      [] OTHER -> <<ParDim(k)>>                        \* visual-only image
 FunDim(k) == IF Is2D(k) THEN k.r * k.cc ELSE FunShape(k)[1]
 HasVec(k) == ~(k.kind = "image" /\ k.cls = "Continuous2D")
 FunvecDim(k) == IF Is2D(k) THEN ParDim(k) ELSE FunDim(k)
